@@ -26,6 +26,30 @@ def verdicts (S0 S : Store) (T : Config) (cs : List Call) : String :=
     flag "frame" (frameB S0 S), flag "scope" (scopeB cs), flag "wf" (storeWF S),
     flag "nonempty" ((load S).groups.all (!·.addrs.isEmpty))]
 
+/-- Objects a finding is attributed to, computed from the INPUT alone (same notions as the flags
+`unmanagedIndep`, `compactT`, `distinctT`): managed groups (`g:ID`) / services (`s:ID`) that a rule of a
+policy outside Netspoc's scope refers to; target rules whose inline service entries are not compact JSON;
+target groups that share their address set with another target group. -/
+def unmRefs (S : Store) : List String :=
+  S.policies.flatMap fun p => if managed p.id then [] else p.rules.flatMap fun r =>
+    let ep (x : String) : List String :=
+      match groupRef x with
+      | some x => if managed x then [s!"g:{x}"] else []
+      | none => []
+    ep r.src ++ ep r.dst ++
+      match serviceRef r.service with
+      | some x => if managed x then [s!"s:{x}"] else []
+      | none => []
+
+def spacedRules (T : Config) : List String :=
+  T.policies.flatMap fun p => p.rules.filterMap fun r =>
+    if compactJSON r.attrs.svcEntries == r.attrs.svcEntries then none else some s!"{p.id}/{r.id}"
+
+def twinGroups (T : Config) : List String :=
+  T.groups.filterMap fun g1 =>
+    if T.groups.any fun g2 => g1.id != g2.id &&
+        g1.addrs.all (g2.addrs.contains ·) && g2.addrs.all (g1.addrs.contains ·) then some g1.id else none
+
 def answer (line : String) : String :=
   match splitTab line with
   | ["plan", s, v4, v6, raw] =>
@@ -66,7 +90,9 @@ def answer (line : String) : String :=
         flag "policyIds" (policyIdsManaged T), flag "extRefs" (extRefsOK S T), flag "unmanagedIndep" (unmanagedIndep S),
         flag "idsOK" (idsOK (load S) T), flag "sortTies" (sortTies T), flag "accepted" (accepted S T),
         flag "compactS" (rulesCompact (load S)), flag "compactT" (rulesCompact T),
-        flag "distinctT" (distinctContent T.groups), flag "idemOK" (idemOK S T)]
+        flag "distinctT" (distinctContent T.groups), flag "idemOK" (idemOK S T),
+        "unmRefs=" ++ ",".intercalate (unmRefs S), "spacedRules=" ++ ",".intercalate (spacedRules T),
+        "twinGroups=" ++ ",".intercalate (twinGroups T)]
     | _, _ => "bad-input"
   | ["load", n, s] =>
     match n.toNat?, decConfig s with
